@@ -327,7 +327,7 @@ func c29NewG(r *Rng) *c29G {
 	return g
 }
 
-func c29Gen(gen *Gen) {
+func c29GenLocal(gen *Gen) {
 	r := gen.Rng
 	n := gen.N(600, 12000)
 	for i := 0; i < n; i++ {
@@ -619,9 +619,13 @@ func c29RealReaper(c *Case, parent *c29World) string {
 		return "evicted=0 closes=none"
 	}
 	sw.workers[0].h.VerifC29Age(2 * c29Tick)
-	deadline := time.Now().Add(5 * time.Second)
+	// the server's own reaper (started by the server on the request path, tick 2 ms) must evict and close
+	deadline := time.Now().Add(2 * time.Second)
 	for st.closes.Load() == 0 && time.Now().Before(deadline) {
 		time.Sleep(time.Millisecond)
+	}
+	if st.closes.Load() == 0 {
+		c.Oracle("expired-session-never-closed", "a session opened by a request without a session header expired (aged 2 TTLs) but the server's reaper never evicted it: state.Close did not run within 2 s (reaper tick 2 ms)")
 	}
 	ev := 0
 	if len(sw.workers[0].h.VerifC29Entries()) == 0 {
